@@ -192,6 +192,23 @@ theorem calculateVelocity_relabel (σ : Nat → Id → Id) (hσ : ∀ s, Functio
             | none => rw [hm] at hnone; simp at hnone
             | some m => rfl
 
+/-- injectivity on the ids that occur is enough: each `σ s` injective on the ids occurring at frame `s` (vertices of the
+    frame, keys of step map `s`, real values of step map `s-1`), and `p` one of the ids occurring at frame `t`.
+    (Such a family agrees on the series with a family of globally injective renumberings.) -/
+theorem calculateVelocity_relabel_of_injOn (σ : Nat → Id → Id) (frames : List TFrame) (maps : List (Option StepMap))
+    (p : Id) (t : Nat)
+    (hσ : ∀ s, ∀ a ∈ seriesIds frames maps s, ∀ b ∈ seriesIds frames maps s, σ s a = σ s b → a = b)
+    (hp : p ∈ seriesIds frames maps t) :
+    calculateVelocity (relabelFrames σ frames) (relabelMaps σ maps) (σ t p) t = calculateVelocity frames maps p t := by
+  have H : ∀ s, ∃ g : Id → Id, Function.Injective g ∧ ∀ a ∈ seriesIds frames maps s, g a = σ s a :=
+    fun s => exists_injective_extension _ (σ s) (hσ s)
+  have hg : ∀ s, Function.Injective (Classical.choose (H s)) := fun s => (Classical.choose_spec (H s)).1
+  have hga : ∀ s, ∀ a ∈ seriesIds frames maps s, σ s a = Classical.choose (H s) a :=
+    fun s a ha => ((Classical.choose_spec (H s)).2 a ha).symm
+  rw [C13r.relabelFrames_congr σ (fun s => Classical.choose (H s)) frames maps hga,
+    C13r.relabelMaps_congr σ (fun s => Classical.choose (H s)) frames maps hga, hga t p hp]
+  exact calculateVelocity_relabel (fun s => Classical.choose (H s)) hg frames maps p t
+
 /-! ### E. the right-hand side of the dynamic system
 
   `velOf` is any reading of a `VelResult` as a vector (the code lets the exceptions propagate; whatever is done with
@@ -249,6 +266,137 @@ theorem getPointIdByMap_relabel_noninjective_witness :
     getPointIdByMap (relabelMaps merge1 [some [(1, some 5), (2, some 6)]]) (merge1 1 5) 1 0 = .ok (some 2) ∧
     (getPointIdByMap [some [(1, some 5), (2, some 6)]] 5 1 0).map (Option.map (merge1 0)) = .ok (some 1) ∧
     merge1 1 5 = merge1 1 6 := by
+  decide +kernel
+
+/-! ### G. non-vacuity: a three-frame series, every frame numbered differently
+
+  Frame 0 (time 0): vertices 1, 2, 3;  frame 1 (time 2): vertices 4, 5, 6;  frame 2 (time 3): vertices 7, 8.
+  Step 0: 1 ↦ 4, 2 ↦ 5, 3 untracked (None).  Step 1: 4 ↦ 7, 5 ↦ 8, 6 untracked.
+  Numbering `mulAdd t a = a (t + 2) + t`: frame 0 ↦ 2, 4, 6;  frame 1 ↦ 13, 16, 19;  frame 2 ↦ 30, 34.
+  Numbering `swapAll`: frame 0 swaps 1 ↔ 3, frame 1 swaps 4 ↔ 6 (the numeric order is reversed), frame 2 swaps 7 ↔ 8. -/
+
+def exFrames : List TFrame :=
+  [⟨0, [⟨1, ⟨0, 0⟩⟩, ⟨2, ⟨4, 0⟩⟩, ⟨3, ⟨0, 4⟩⟩]⟩,
+   ⟨2, [⟨4, ⟨1, 1⟩⟩, ⟨5, ⟨4, 2⟩⟩, ⟨6, ⟨9, 9⟩⟩]⟩,
+   ⟨3, [⟨7, ⟨3, 1⟩⟩, ⟨8, ⟨4, 5⟩⟩]⟩]
+
+def exMaps : List (Option StepMap) :=
+  [some [(1, some 4), (2, some 5), (3, none)], some [(4, some 7), (5, some 8), (6, none)]]
+
+def mulAdd (t : Nat) (a : Id) : Id := a * ((t : Int) + 2) + (t : Int)
+
+theorem mulAdd_injective (t : Nat) : Function.Injective (mulAdd t) := by
+  intro (a : Int) (b : Int) (h : a * ((t : Int) + 2) + (t : Int) = b * ((t : Int) + 2) + (t : Int))
+  show a = b
+  have h' : (a - b) * ((t : Int) + 2) = 0 := by rw [Int.sub_mul]; omega
+  rcases Int.mul_eq_zero.1 h' with h0 | h0 <;> omega
+
+def swapAll (t : Nat) (a : Id) : Id :=
+  if t = 0 then (if a = 1 then 3 else if a = 3 then 1 else a)
+  else if t = 1 then (if a = 4 then 6 else if a = 6 then 4 else a)
+  else (if a = 7 then 8 else if a = 8 then 7 else a)
+
+theorem swapAll_involutive (t : Nat) (a : Id) : swapAll t (swapAll t a) = a := by
+  unfold swapAll
+  grind
+
+theorem swapAll_injective (t : Nat) : Function.Injective (swapAll t) :=
+  Function.LeftInverse.injective (swapAll_involutive t)
+
+/-- the relabelled series, spelled out -/
+example : relabelFrames mulAdd exFrames =
+      [⟨0, [⟨2, ⟨0, 0⟩⟩, ⟨4, ⟨4, 0⟩⟩, ⟨6, ⟨0, 4⟩⟩]⟩,
+       ⟨2, [⟨13, ⟨1, 1⟩⟩, ⟨16, ⟨4, 2⟩⟩, ⟨19, ⟨9, 9⟩⟩]⟩,
+       ⟨3, [⟨30, ⟨3, 1⟩⟩, ⟨34, ⟨4, 5⟩⟩]⟩] ∧
+    relabelMaps mulAdd exMaps =
+      [some [(2, some 13), (4, some 16), (6, none)], some [(13, some 30), (16, some 34), (19, none)]] ∧
+    relabelMaps swapAll exMaps =
+      [some [(3, some 6), (2, some 5), (1, none)], some [(6, some 8), (5, some 7), (4, none)]] := by
+  decide +kernel
+
+/-- forward at `t = 0`: tracked vertices 1, 2 and the untracked vertex 3 (target None: velocity zero), computed on the
+    original series and on both renumbered series -/
+example :
+    calculateVelocity exFrames exMaps 1 0 = .ok ⟨1/2, 1/2⟩ ∧
+    calculateVelocity (relabelFrames mulAdd exFrames) (relabelMaps mulAdd exMaps) (mulAdd 0 1) 0 = .ok ⟨1/2, 1/2⟩ ∧
+    calculateVelocity (relabelFrames swapAll exFrames) (relabelMaps swapAll exMaps) (swapAll 0 1) 0 = .ok ⟨1/2, 1/2⟩ ∧
+    calculateVelocity exFrames exMaps 2 0 = .ok ⟨0, 1⟩ ∧
+    calculateVelocity (relabelFrames mulAdd exFrames) (relabelMaps mulAdd exMaps) (mulAdd 0 2) 0 = .ok ⟨0, 1⟩ ∧
+    calculateVelocity exFrames exMaps 3 0 = .ok ⟨0, 0⟩ ∧
+    calculateVelocity (relabelFrames mulAdd exFrames) (relabelMaps mulAdd exMaps) (mulAdd 0 3) 0 = .ok ⟨0, 0⟩ ∧
+    calculateVelocity (relabelFrames swapAll exFrames) (relabelMaps swapAll exMaps) (swapAll 0 3) 0 = .ok ⟨0, 0⟩ := by
+  decide +kernel
+
+/-- forward at `t = 1` (time step 1): vertices 4, 5 tracked, 6 untracked -/
+example :
+    calculateVelocity exFrames exMaps 4 1 = .ok ⟨2, 0⟩ ∧
+    calculateVelocity (relabelFrames mulAdd exFrames) (relabelMaps mulAdd exMaps) (mulAdd 1 4) 1 = .ok ⟨2, 0⟩ ∧
+    calculateVelocity (relabelFrames swapAll exFrames) (relabelMaps swapAll exMaps) (swapAll 1 4) 1 = .ok ⟨2, 0⟩ ∧
+    calculateVelocity exFrames exMaps 5 1 = .ok ⟨0, 3⟩ ∧
+    calculateVelocity (relabelFrames swapAll exFrames) (relabelMaps swapAll exMaps) (swapAll 1 5) 1 = .ok ⟨0, 3⟩ ∧
+    calculateVelocity exFrames exMaps 6 1 = .ok ⟨0, 0⟩ ∧
+    calculateVelocity (relabelFrames mulAdd exFrames) (relabelMaps mulAdd exMaps) (mulAdd 1 6) 1 = .ok ⟨0, 0⟩ := by
+  decide +kernel
+
+/-- backward at the last frame `t = 2`: vertex 7 comes from 4, vertex 8 from 5 -/
+example :
+    calculateVelocity exFrames exMaps 7 2 = .ok ⟨2, 0⟩ ∧
+    calculateVelocity (relabelFrames mulAdd exFrames) (relabelMaps mulAdd exMaps) (mulAdd 2 7) 2 = .ok ⟨2, 0⟩ ∧
+    calculateVelocity (relabelFrames swapAll exFrames) (relabelMaps swapAll exMaps) (swapAll 2 7) 2 = .ok ⟨2, 0⟩ ∧
+    calculateVelocity exFrames exMaps 8 2 = .ok ⟨0, 3⟩ ∧
+    calculateVelocity (relabelFrames mulAdd exFrames) (relabelMaps mulAdd exMaps) (mulAdd 2 8) 2 = .ok ⟨0, 3⟩ := by
+  decide +kernel
+
+/-- the exceptions travel too: an unknown vertex (KeyError) and a missing step map (DifferentTissueException) -/
+example :
+    calculateVelocity exFrames exMaps 99 0 = .keyError ∧
+    calculateVelocity (relabelFrames mulAdd exFrames) (relabelMaps mulAdd exMaps) (mulAdd 0 99) 0 = .keyError ∧
+    calculateVelocity exFrames [none, none] 1 0 = .differentTissue ∧
+    calculateVelocity (relabelFrames mulAdd exFrames) (relabelMaps mulAdd [none, none]) (mulAdd 0 1) 0
+      = .differentTissue := by
+  decide +kernel
+
+/-- the id walks: two steps forward from frame 0, two steps backward from frame 2, an untracked vertex on the way -/
+example :
+    getPointIdByMap exMaps 1 0 2 = .ok (some 7) ∧
+    getPointIdByMap (relabelMaps mulAdd exMaps) (mulAdd 0 1) 0 2 = .ok (some 30) ∧ mulAdd 2 7 = 30 ∧
+    getPointIdByMap exMaps 8 2 0 = .ok (some 2) ∧
+    getPointIdByMap (relabelMaps mulAdd exMaps) (mulAdd 2 8) 2 0 = .ok (some 4) ∧ mulAdd 0 2 = 4 ∧
+    getPointIdByMap (relabelMaps swapAll exMaps) (swapAll 2 8) 2 0 = .ok (some 2) ∧ swapAll 0 2 = 2 ∧
+    getPointIdByMap exMaps 3 0 2 = .ok none ∧
+    getPointIdByMap (relabelMaps mulAdd exMaps) (mulAdd 0 3) 0 2 = .ok none ∧
+    getPointIdByMap exMaps 9 0 2 = .error .keyError ∧
+    getPointIdByMap (relabelMaps mulAdd exMaps) (mulAdd 0 9) 0 2 = .error .keyError := by
+  decide +kernel
+
+/-- the theorems instantiated on the example (hypotheses satisfiable) -/
+example (p : Id) (t : Nat) :
+    calculateVelocity (relabelFrames mulAdd exFrames) (relabelMaps mulAdd exMaps) (mulAdd t p) t
+      = calculateVelocity exFrames exMaps p t ∧
+    calculateVelocity (relabelFrames swapAll exFrames) (relabelMaps swapAll exMaps) (swapAll t p) t
+      = calculateVelocity exFrames exMaps p t :=
+  ⟨calculateVelocity_relabel mulAdd mulAdd_injective exFrames exMaps p t,
+   calculateVelocity_relabel swapAll swapAll_injective exFrames exMaps p t⟩
+
+/-- hypothesis `hmaps` of `getPointIdByMap_relabel_partial` holds on the example for the whole range -/
+example (p : Id) :
+    getPointIdByMap (relabelMaps mulAdd exMaps) (mulAdd 0 p) 0 2
+      = (getPointIdByMap exMaps p 0 2).map (Option.map (mulAdd 2)) := by
+  apply getPointIdByMap_relabel_partial mulAdd mulAdd_injective
+  intro s _ h2
+  have : s = 0 ∨ s = 1 := by omega
+  rcases this with rfl | rfl <;> rfl
+
+/-- a numbering that is injective on the ids of the example only (everything outside 1 … 8 is sent to 5, frame by
+    frame the ids are reversed): the hypotheses of `calculateVelocity_relabel_of_injOn` -/
+def flipOn (_ : Nat) (a : Id) : Id := if 1 ≤ a ∧ a ≤ 8 then 9 - a else 5
+
+example : (∀ s < 3, ∀ a ∈ seriesIds exFrames exMaps s, ∀ b ∈ seriesIds exFrames exMaps s,
+      flipOn s a = flipOn s b → a = b) ∧
+    seriesIds exFrames exMaps 0 = [1, 2, 3, 1, 2, 3] ∧ seriesIds exFrames exMaps 1 = [4, 5, 6, 4, 5, 6, 4, 5] ∧
+    seriesIds exFrames exMaps 2 = [7, 8, 7, 8] ∧ seriesIds exFrames exMaps 3 = [] ∧
+    flipOn 0 100 = flipOn 0 4 ∧
+    calculateVelocity (relabelFrames flipOn exFrames) (relabelMaps flipOn exMaps) (flipOn 1 4) 1 = .ok ⟨2, 0⟩ := by
   decide +kernel
 
 end Forsys
